@@ -852,6 +852,23 @@ func runTool(bin string, in []byte, args ...string) ([]byte, error) {
 	return ioutil.ReadFile(op)
 }
 
+// beyondSaiz: a sample with 40 or more protected NAL units needs more than 255 bytes of auxiliary information with a 16-byte
+// IV (16 + 2 + 6n), 43 or more with a constant IV: saiz cannot describe it, refusing to encrypt is the right answer
+func (j *cencJob) beyondSaiz() bool {
+	for _, smp := range j.samples {
+		n := 0
+		for _, nal := range smp {
+			if nal.Kind == "v" && nal.Len+4 >= 112 {
+				n++
+			}
+		}
+		if (j.scheme == "cenc" && 16+2+6*n > 255) || 2+6*n > 255 {
+			return true
+		}
+	}
+	return false
+}
+
 func nalsOfSample(s []byte) []cencNal {
 	var out []cencNal
 	pos := 0
@@ -958,6 +975,10 @@ func cencRun(rep *Report, tw7, tw6 *TraceWriter, job *cencJob, key []byte, name 
 		// the shipped command line tool, built from the working tree
 		out, err := runTool(c07EncBin, clearFile, "-kid", hex.EncodeToString(kid), "-key", hex.EncodeToString(key), "-iv", hex.EncodeToString(ivArg), "-scheme", job.scheme)
 		if err != nil {
+			if job.beyondSaiz() {
+				rep.Count(name+"/refused", true, J{"refused": err.Error()})
+				return
+			}
 			rep.Violation("encrypt/tool-error", "mp4ff-encrypt fails: "+err.Error(), cs)
 			return
 		}
@@ -977,6 +998,10 @@ func cencRun(rep *Report, tw7, tw6 *TraceWriter, job *cencJob, key []byte, name 
 		for _, seg := range f.Segments {
 			for _, fr := range seg.Fragments {
 				if err := mp4.EncryptFragment(fr, key, ivArg, ipd); err != nil {
+					if job.beyondSaiz() {
+						rep.Count(name+"/refused", true, J{"refused": err.Error()}) // 23001-7: the aux info of such a sample does not fit sample_info_size (8 bits)
+						return
+					}
 					rep.Violation("encrypt/error", "EncryptFragment fails: "+err.Error(), cs)
 					return
 				}
